@@ -329,11 +329,17 @@ def reference_results():
             "from mc.checks import c06\n"
             "print(json.dumps(c06.run_history([int(sys.argv[1])])[0][0]))\n") % (str(core.REPO), str(core.VERIF))
     env = dict(os.environ)
-    for i in range(menu_size()):
-        r = subprocess.run([sys.executable, "-c", code, str(i)], capture_output=True, text=True, env=env, timeout=120)
+    from concurrent.futures import ThreadPoolExecutor
+
+    def one(i):
+        r = subprocess.run([sys.executable, "-c", code, str(i)], capture_output=True, text=True, env=env, timeout=300)
         if r.returncode != 0:
             raise core.HarnessError(f"reference subprocess failed for item {i}: {r.stderr[-400:]}")
-        out[i] = json.loads(r.stdout.strip().splitlines()[-1])
+        return i, json.loads(r.stdout.strip().splitlines()[-1])
+
+    with ThreadPoolExecutor(8) as ex:
+        for i, v in ex.map(one, range(menu_size())):
+            out[i] = v
     return out
 
 
@@ -387,6 +393,20 @@ def corpus_digest(order):
     return core.digest(sorted(items, key=lambda x: (x[0], x[1])))
 
 
+def one_digest(hs, order):
+    code = ("import sys; sys.path.insert(0, %r); sys.path.insert(0, %r)\n"
+            "from mc.checks import c06\nprint(c06.corpus_digest(int(sys.argv[1])))\n") % (str(core.REPO), str(core.VERIF))
+    env = dict(os.environ, PYTHONHASHSEED=hs)
+    r = subprocess.run([sys.executable, "-c", code, str(order)], capture_output=True, text=True, env=env, timeout=300)
+    if r.returncode != 0:
+        raise core.HarnessError(f"digest subprocess failed: {r.stderr[-300:]}")
+    return r.stdout.strip().splitlines()[-1]
+
+
+def hash_seeds(seed):
+    return ["0", "1", "2", "3", str(1000 + seed % 1000), "random"]
+
+
 def seed_differential(seed):
     code = ("import sys; sys.path.insert(0, %r); sys.path.insert(0, %r)\n"
             "from mc.checks import c06\nprint(c06.corpus_digest(int(sys.argv[1])))\n") % (str(core.REPO), str(core.VERIF))
@@ -431,6 +451,11 @@ def _block(block, agg):
                 agg.violation(kd, sig, case, d)
         for f in fps:
             agg.state(["global", f])
+    elif kind == "seed1":
+        _, hs, order = block
+        agg.extra[f"digest:{one_digest(hs, order)}"] += 1
+        agg.extra["supplementary_seed_runs(sampling)"] += 1
+        agg.case({"part": "seed-run", "hashseed": hs, "order": order}, True, "seed-run", sample=False)
     else:
         _, seed = block
         res = seed_differential(seed)
@@ -486,5 +511,11 @@ def run(ctx: core.Ctx):
     step = max(1, len(seqs) // (ctx.workers * 3) + 1)
     for i in range(0, len(seqs), step):
         blocks.append(("hist", seqs[i:i + step], refs))
-    blocks.append(("seeds", ctx.seed))
+    for hs in hash_seeds(ctx.seed):
+        for order in (0, 1):
+            blocks.append(("seed1", hs, order))
     ctx.run_blocks(_block, blocks)
+    digests = [k for k in ctx.agg.extra if k.startswith("digest:")]
+    if len(digests) != 1:
+        ctx.agg.violation("result-depends-on-hash-seed-or-file-order", {"mode": "real-seed"}, {"part": "seeds", "seed": ctx.seed},
+                          f"{len(digests)} distinct corpus digests over PYTHONHASHSEED in {hash_seeds(ctx.seed)} x 2 file orders")
